@@ -154,9 +154,9 @@ Ok(st, ct, kind, skel, size, slots) == [t |-> "ok", st |-> st, ct |-> ct, kind |
 \* RequestError(msg, code, request=..., status=...): echo = request text in msg; h = the request's exception handlers
 Err(h, code, echo, st) == [t |-> "err", h |-> h, code |-> code, echo |-> echo, st |-> st]
 
-\* the URL of this service as the templates print it: host_url + quote(script name) + quote(path)
+\* the URL of this service as the templates print it: Request.base_url = host_url + quote(script name) + quote(path)
 UrlSlots(p, pos) ==
-  {<<k, p[k], pos, IF "raw_host" \in Defects THEN "raw" ELSE "url">> : k \in {x \in {"h_host", "h_proto"} : G(p, x) \in HText}}
+  {<<k, p[k], pos, IF "raw_host" \in Defects THEN "raw" ELSE "html">> : k \in {x \in {"h_host", "h_proto"} : G(p, x) \in HText}}
   \cup If(G(p, "h_script") \in HText, {<<"h_script", G(p, "h_script"), pos, "url">>})
 HtmlUrlSlots(p, pos) == {<<k, p[k], pos, "html">> : k \in {x \in {"h_host", "h_proto", "h_script"} : G(p, x) \in HText}}
 
@@ -356,7 +356,7 @@ TileHandle(svc, op, p) ==
     [] op \in {"kml_doc", "kml_init"} ->
         IF TileLayerChecks(p, h) # {} THEN TileLayerChecks(p, h)
         ELSE IF op = "kml_doc" /\ CoordBad(p) THEN {Err(h, "none", {}, 0)}
-        ELSE IF "raw_host" \in Defects /\ \E k \in {"h_host", "h_proto"} : p[k] = "latin1" THEN {Raise}   \* etag: str.encode('ascii')
+        ELSE IF \E k \in {"h_host", "h_proto"} : p[k] = "latin1" THEN {Raise}       \* etag: str.encode('ascii') of the document
         ELSE IF G(p, "h_inm") = "match" THEN {Ok(304, "none", "empty", "none", "none", {})}
         ELSE {Ok(200, "application/vnd.google-earth.kml+xml", "xml", "kml", "none", HtmlUrlSlots(p, "chardata"))}
     [] OTHER ->                                                            \* a tile
@@ -499,7 +499,7 @@ CatchAll ==
 HeaderBad(slots) == "raw_header" \in Defects /\ \E s \in slots : s[3] = "header" /\ s[4] = "raw" /\ s[2] \in {"unicode", "ctrl"}
 XmlBad(slots) == "xml_ctrl" \in Defects /\ \E s \in slots : s[3] = "chardata" /\ s[4] = "xml" /\ s[2] = "ctrl"
 ImageBad(slots) == \E s \in slots : s[3] = "imagebytes"
-MarkupBad(slots) == \E s \in slots : s[3] \in {"chardata", "attr", "script"} /\ s[4] = "raw" /\ s[2] \in {"hostile", "latin1"}
+MarkupBad(slots) == \E s \in slots : s[3] \in {"chardata", "attr", "script"} /\ s[4] = "raw" /\ s[2] \in {"hostile", "latin1", "unicode"}
 
 Send ==
   /\ pc = "send"
